@@ -39,9 +39,20 @@ def project_strict(w, res, perm):
     return x
 
 
-def strict_record(parent, thr, gt, d, perms):
-    w = World(parent, thr, gt=gt)
+def strict_record(parent, thr, gt, d, perms, parent_before=None):
+    w = World(parent_before if parent_before is not None else parent, thr, gt=gt)
     dist = w.dists(d)
+    if parent_before is not None:
+        # the taxonomy is edited between two classifications on the same objects: classify and walk every lineage on the old forest,
+        # then re-parent the same Taxon objects; everything below is judged against the NEW forest
+        classify(w.genomes, dist, strict=False)
+        classify(w.genomes, dist, strict=True)
+        for t in w.taxa:
+            list(t.ancestors(incself=True)); t.lineage()
+        for i, pnew in enumerate(parent):
+            want = w.taxa[pnew - 1] if pnew else None
+            if w.taxa[i].parent is not want:
+                w.taxa[i].parent = want
     r = dict(op='strict', parent=parent, thr=thr, gt=gt, d=d, results=[])
     for perm in perms:
         genomes = [w.genomes[g - 1] for g in perm]
@@ -65,7 +76,7 @@ class Fam(core.Family):
         if inp['op'] == 'cons':
             return cons_record(inp['parent'], inp['input'])
         perms = inp.get('perms') or list(itertools.permutations(range(1, len(inp['gt']) + 1)))
-        return strict_record(inp['parent'], inp['thr'], inp['gt'], inp['d'], perms)
+        return strict_record(inp['parent'], inp['thr'], inp['gt'], inp['d'], perms, inp.get('parent_before'))
 
     def corrupt(self, rec):
         if rec['op'] == 'cons':
@@ -183,7 +194,32 @@ class StrictRandom(Fam):
     nontrivial = StrictExhaustive.nontrivial
 
 
-FAMILIES = [ConsensusAll, StrictExhaustive, DeepFork, StrictRandom]
+class StrictReparented(Fam):
+    name = 'strict-reparented-between-calls'
+    exhaustive = False
+
+    def inputs(self, ctx):
+        step = 9 if ctx.tier == 'quick' else 1
+        self.rule = (f'ordered pairs of distinct forests on 4 taxa (every {step}th combination): classify (both modes) and walk all lineages on the first, '
+                     f're-parent the SAME Taxon objects into the second, then classify(strict=True) under all 6 reference orders of 3 genomes; judged against the second forest')
+        fs = forests(4)
+        c = 0
+        for p1 in fs:
+            for p2 in fs:
+                if p1 == p2:
+                    continue
+                for thr in ([3, 2, 1, 1], [2, -1, 1, 0], [-1, 2, 2, 1]):
+                    for gt in ([2, 3, 4], [4, 4, 1], [3, 4, 2]):
+                        for d in ([0, 1, 2], [1, 1, 1], [2, 0, 1], [0, 0, 3]):
+                            c += 1
+                            if c % step:
+                                continue
+                            yield dict(op='strict', parent=p2, parent_before=p1, thr=thr, gt=gt, d=d)
+
+    nontrivial = StrictExhaustive.nontrivial
+
+
+FAMILIES = [ConsensusAll, StrictExhaustive, DeepFork, StrictRandom, StrictReparented]
 
 
 def run(ctx):
